@@ -11,6 +11,8 @@ CONSTANTS
   FixNonRequest = TRUE
   FixLongWs = TRUE
   FarChoices = {TRUE, FALSE}
+  HasValidator = TRUE
+  NilPointerSkipsValidation = TRUE
 INIT Init
 NEXT Next
 VIEW view
